@@ -625,6 +625,30 @@ theorem fetch_spec {cfg : Cfg} (hcfg : cfg.noStale) (hlg : cfg.lentGuard = true)
 
 /-! ### simulation -/
 
+/-- results of the FIFO-cached and the uncached run correspond: both succeed with related values, or both stop with
+the same fault (no `badHint` escape: FIFO's `Put` ignores the recorded victim) -/
+def ExRel2 {α β : Type} (R : α → β → Prop) : Except Fault α → Except Fault β → Prop
+  | .ok a, .ok b => R a b
+  | .error e, .error e' => e = e'
+  | _, _ => False
+
+theorem ExRel2.cases {α β : Type} {R : α → β → Prop} {x : Except Fault α} {y : Except Fault β}
+    (h : ExRel2 R x y) :
+    False ∨ (∃ a b, x = .ok a ∧ y = .ok b ∧ R a b) ∨ (∃ e, x = .error e ∧ y = .error e) := by
+  cases x with
+  | error e =>
+    cases y with
+    | error e' => simp only [ExRel2] at h; subst h; exact Or.inr (Or.inr ⟨_, rfl, rfl⟩)
+    | ok b => simp [ExRel2] at h
+  | ok a =>
+    cases y with
+    | error e' => simp [ExRel2] at h
+    | ok b => exact Or.inr (Or.inl ⟨a, b, rfl, rfl, h⟩)
+
+theorem ExRel2.same {α β : Type} {R : α → β → Prop} (e : Fault) :
+    ExRel2 R (.error e : Except Fault α) (.error e : Except Fault β) := by
+  simp [ExRel2]
+
 /-- the part of the simulation that does not mention `err` -/
 structure W (f : File) (C U : Reader LCache) : Prop where
   invC : FInv f C
@@ -645,7 +669,7 @@ def FetchRel (f : File) (C U : Reader LCache) :
 theorem fetch_sim {cfg : Cfg} (hcfg : cfg.noStale) (hlg : cfg.lentGuard = true) {f : File}
     {C U : Reader LCache} {k : Int} (w : W f C U)
     (hkC : ∀ id, C.cur = some id → (C.heap id).hasData = true → (C.heap id).base ≠ k) :
-    ExRel (FetchRel f C U) (fetch cfg fifoOps f C k) (fetch cfg fifoOps f U k) := by
+    ExRel2 (FetchRel f C U) (fetch cfg fifoOps f C k) (fetch cfg fifoOps f U k) := by
   obtain ⟨C1, e, hfc, cid, ccur, cl, cinv, ce', ccb, cce, cbl⟩ := fetch_spec hcfg hlg w.invC hkC
   rw [fetch_uncached cfg fifoOps f k w.ucache.1 w.ucache.2, hfc]
   have hnU : ∀ id, U.cur = some id → ¬ Idx U id := by
@@ -672,7 +696,7 @@ theorem fetch_sim {cfg : Cfg} (hcfg : cfg.noStale) (hlg : cfg.lentGuard = true) 
 theorem nextBlock_sim {cfg : Cfg}
     (hcfg : cfg.noStale) (hlg : cfg.lentGuard = true) {f : File} (hf : FileOK f) {C U : Reader LCache} (w : W f C U)
     (live : ∀ c, C.cur = some c → (C.heap c).hasData = true) :
-    ExRel (FetchRel f C U) (nextBlock cfg fifoOps f C) (nextBlock cfg fifoOps f U) := by
+    ExRel2 (FetchRel f C U) (nextBlock cfg fifoOps f C) (nextBlock cfg fifoOps f U) := by
   obtain ⟨c, u, hc, hu, hb⟩ := w.cur
   unfold nextBlock
   rw [hc, hu]
@@ -698,9 +722,9 @@ structure S (f : File) (C U : Reader LCache) : Prop where
 theorem skipEmpty_sim {cfg : Cfg}
     (hcfg : cfg.noStale) (hlg : cfg.lentGuard = true) {f : File} (hf : FileOK f) (fuel : Nat) {C U : Reader LCache}
     (s : S f C U) (he : C.err = .none) :
-    ExRel (S f) (skipEmpty cfg fifoOps f fuel C) (skipEmpty cfg fifoOps f fuel U) := by
+    ExRel2 (S f) (skipEmpty cfg fifoOps f fuel C) (skipEmpty cfg fifoOps f fuel U) := by
   induction fuel generalizing C U with
-  | zero => unfold skipEmpty; exact ExRel.same _
+  | zero => unfold skipEmpty; exact ExRel2.same _
   | succ fuel ih =>
     obtain ⟨c, u, hc, hu, hb⟩ := s.w.cur
     unfold skipEmpty
@@ -711,7 +735,7 @@ theorem skipEmpty_sim {cfg : Cfg}
     · simp only [hl, if_true]
       have hn := nextBlock_sim hcfg hlg hf s.w (s.live he)
       rcases hn.cases with h1 | ⟨a, b, h1, h2, hr⟩ | ⟨e, h1, h2⟩
-      · rw [h1]; exact ExRel.badHint _
+      · exact h1.elim
       · rw [h1, h2]
         obtain ⟨C1, e1⟩ := a
         obtain ⟨U1, e2⟩ := b
@@ -725,7 +749,7 @@ theorem skipEmpty_sim {cfg : Cfg}
           · rfl
         · simp only [hen, if_false]
           exact ⟨w1.setErr _ _, rfl, fun h0 => absurd h0 hen⟩
-      · rw [h1, h2]; exact ExRel.same _
+      · rw [h1, h2]; exact ExRel2.same _
     · simp only [hl, if_false]
       exact s
 
@@ -737,9 +761,9 @@ def LoopRel (f : File) :
 theorem readLoop_sim {cfg : Cfg}
     (hcfg : cfg.noStale) (hlg : cfg.lentGuard = true) {f : File} (hf : FileOK f) (fuel : Nat) {C U : Reader LCache}
     (s : S f C U) (want : Nat) (acc : List Nat) :
-    ExRel (LoopRel f) (readLoop cfg fifoOps f fuel C want acc) (readLoop cfg fifoOps f fuel U want acc) := by
+    ExRel2 (LoopRel f) (readLoop cfg fifoOps f fuel C want acc) (readLoop cfg fifoOps f fuel U want acc) := by
   induction fuel generalizing C U want acc with
-  | zero => unfold readLoop; exact ExRel.same _
+  | zero => unfold readLoop; exact ExRel2.same _
   | succ fuel ih =>
     obtain ⟨c, u, hc, hu, hb⟩ := s.w.cur
     unfold readLoop
@@ -770,7 +794,7 @@ theorem readLoop_sim {cfg : Cfg}
             have : c' = c := by rw [hc] at hc'; exact (Option.some.inj hc').symm
             subst this; exact hd)
           rcases hn.cases with h1 | ⟨a, b, h1, h2, hr⟩ | ⟨e, h1, h2⟩
-          · rw [h1]; exact ExRel.badHint _
+          · exact h1.elim
           · rw [h1, h2]
             obtain ⟨C1, e1⟩ := a
             obtain ⟨U1, e2⟩ := b
@@ -779,7 +803,7 @@ theorem readLoop_sim {cfg : Cfg}
             subst hee
             apply ih
             exact ⟨w1.setErr _ _, rfl, fun h0 c' hc' => (hiff c' hc').2 h0⟩
-          · rw [h1, h2]; exact ExRel.same _
+          · rw [h1, h2]; exact ExRel2.same _
       · simp only [hl, if_false]
         obtain ⟨_, hdat, hpos, _⟩ := hb.2.2.2 hd
         have hbytes : List.take (min want (C.heap c).len) (List.drop (C.heap c).pos (C.heap c).data) =
@@ -817,7 +841,7 @@ def OutRel (f : File) :
 
 theorem read_sim {cfg : Cfg}
     (hcfg : cfg.noStale) (hlg : cfg.lentGuard = true) {f : File} (hf : FileOK f) {C U : Reader LCache} (s : S f C U) (n : Nat) :
-    ExRel (OutRel f) (CachedReader.read cfg fifoOps f C n) (CachedReader.read cfg fifoOps f U n) := by
+    ExRel2 (OutRel f) (CachedReader.read cfg fifoOps f C n) (CachedReader.read cfg fifoOps f U n) := by
   unfold CachedReader.read
   by_cases he : C.err = .none
   · have heU : U.err = .none := by rw [← s.err]; exact he
@@ -826,7 +850,7 @@ theorem read_sim {cfg : Cfg}
     simp only [hne, hneU, if_false]
     have h1 := skipEmpty_sim hcfg hlg hf (fuelFor f 0) s he
     rcases h1.cases with e1 | ⟨C1, U1, e1, e2, s1⟩ | ⟨e, e1, e2⟩
-    · rw [e1]; exact ExRel.badHint _
+    · exact e1.elim
     · rw [e1, e2]
       simp only
       by_cases he1 : C1.err = .none
@@ -841,7 +865,7 @@ theorem read_sim {cfg : Cfg}
           exact s1.w.invU.congr _ rfl rfl rfl rfl
         have h2 := readLoop_sim hcfg hlg hf (fuelFor f n) s2 n []
         rcases h2.cases with e3 | ⟨a, b, e3, e4, r3⟩ | ⟨e, e3, e4⟩
-        · rw [e3]; exact ExRel.badHint _
+        · exact e3.elim
         · rw [e3, e4]
           obtain ⟨C3, bs, fl⟩ := a
           obtain ⟨U3, bs', fl'⟩ := b
@@ -862,19 +886,19 @@ theorem read_sim {cfg : Cfg}
             refine ⟨rfl, by simp only; rw [s3.err], ⟨?_, s3.err, s3.live⟩⟩
             have := s3.w.setFields C3.err U3.err C3.chunkBegin (curOffset C3) C3.blocked
             exact ⟨this.invC, s3.w.invU.congr _ rfl rfl rfl rfl, s3.w.ucache, s3.w.cb, rfl, s3.w.blocked, s3.w.cur⟩
-        · rw [e3, e4]; exact ExRel.same _
+        · rw [e3, e4]; exact ExRel2.same _
       · have hne1 : C1.err ≠ .none := he1
         have hne1U : U1.err ≠ .none := by rw [← s1.err]; exact he1
         rw [if_pos hne1, if_pos hne1U]
         exact ⟨rfl, by simp only; rw [s1.err], s1⟩
-    · rw [e1, e2]; exact ExRel.same _
+    · rw [e1, e2]; exact ExRel2.same _
   · have hne : C.err ≠ .none := he
     have hneU : U.err ≠ .none := by rw [← s.err]; exact he
     rw [if_pos hne, if_pos hneU]
     exact ⟨rfl, by simp only; rw [s.err], s⟩
 
 theorem byteFin_sim {f : File} {C U : Reader LCache} (s : S f C U)
-    (he : C.err = .none) : ExRel (OutRel f) (byteFin C) (byteFin U) := by
+    (he : C.err = .none) : ExRel2 (OutRel f) (byteFin C) (byteFin U) := by
   obtain ⟨c, u, hc, hu, hb⟩ := s.w.cur
   have hd := s.live he c hc
   obtain ⟨hbase, hdat, hpos, hsz⟩ := hb.2.2.2 hd
@@ -885,7 +909,7 @@ theorem byteFin_sim {f : File} {C U : Reader LCache} (s : S f C U)
       (List.drop (C.heap c).pos (C.heap c).data).head? := by rw [hdat, hpos]
   rw [hh]
   cases (List.drop (C.heap c).pos (C.heap c).data).head? with
-  | none => exact ExRel.same _
+  | none => exact ExRel2.same _
   | some x =>
     simp only
     refine ⟨rfl, rfl, ⟨⟨?_, ?_, s.w.ucache, ?_, ?_, s.w.blocked, c, u, ?_, ?_, ?_⟩, s.err, ?_⟩⟩
@@ -905,7 +929,7 @@ theorem byteFin_sim {f : File} {C U : Reader LCache} (s : S f C U)
 
 theorem readByte_sim {cfg : Cfg}
     (hcfg : cfg.noStale) (hlg : cfg.lentGuard = true) {f : File} (hf : FileOK f) {C U : Reader LCache} (s : S f C U) :
-    ExRel (OutRel f) (readByte cfg fifoOps f C) (readByte cfg fifoOps f U) := by
+    ExRel2 (OutRel f) (readByte cfg fifoOps f C) (readByte cfg fifoOps f U) := by
   unfold readByte
   by_cases he : C.err = .none
   · have heU : U.err = .none := by rw [← s.err]; exact he
@@ -914,7 +938,7 @@ theorem readByte_sim {cfg : Cfg}
     rw [if_neg hne, if_neg hneU]
     have h1 := skipEmpty_sim hcfg hlg hf (fuelFor f 0) s he
     rcases h1.cases with e1 | ⟨C1, U1, e1, e2, s1⟩ | ⟨e, e1, e2⟩
-    · rw [e1]; exact ExRel.badHint _
+    · exact e1.elim
     · rw [e1, e2]
       simp only
       by_cases he1 : C1.err = .none
@@ -927,7 +951,7 @@ theorem readByte_sim {cfg : Cfg}
         have hne1U : U1.err ≠ .none := by rw [← s1.err]; exact he1
         rw [if_pos hne1, if_pos hne1U]
         exact ⟨rfl, by simp only; rw [s1.err], s1⟩
-    · rw [e1, e2]; exact ExRel.same _
+    · rw [e1, e2]; exact ExRel2.same _
   · have hne : C.err ≠ .none := he
     have hneU : U.err ≠ .none := by rw [← s.err]; exact he
     rw [if_pos hne, if_pos hneU]
@@ -940,7 +964,7 @@ def SeekRel (f : File) :
 
 theorem seekFin_sim {f : File} {C U : Reader LCache} (w : W f C U)
     (file : Int) (blk : Nat) :
-    ExRel (SeekRel f) (seekFin C file blk) (seekFin U file blk) := by
+    ExRel2 (SeekRel f) (seekFin C file blk) (seekFin U file blk) := by
   obtain ⟨c, u, hc, hu, hb⟩ := w.cur
   unfold seekFin
   rw [hc, hu]
@@ -968,11 +992,11 @@ theorem seekFin_sim {f : File} {C U : Reader LCache} (w : W f C U)
     have hn : (!(C.heap c).hasData) = true := by rw [hdf]; rfl
     have hnu : (!(U.heap u).hasData) = true := by rw [hduf]; rfl
     rw [if_pos hn, if_pos hnu]
-    exact ExRel.same _
+    exact ExRel2.same _
 
 theorem seek_sim {cfg : Cfg}
     (hcfg : cfg.noStale) (hlg : cfg.lentGuard = true) {f : File} {C U : Reader LCache} (s : S f C U) (file : Int) (blk : Nat) :
-    ExRel (SeekRel f) (seek cfg fifoOps f C file blk) (seek cfg fifoOps f U file blk) := by
+    ExRel2 (SeekRel f) (seek cfg fifoOps f C file blk) (seek cfg fifoOps f U file blk) := by
   obtain ⟨c, u, hc, hu, hb⟩ := s.w.cur
   unfold seek
   rw [hc, hu]
@@ -994,7 +1018,7 @@ theorem seek_sim {cfg : Cfg}
       exact fun h => hcnd h.symm
     have hf := fetch_sim hcfg hlg s.w hk
     rcases hf.cases with e1 | ⟨a, b, e1, e2, r1⟩ | ⟨e, e1, e2⟩
-    · rw [e1]; exact ExRel.badHint _
+    · exact e1.elim
     · rw [e1, e2]
       obtain ⟨C1, ec⟩ := a
       obtain ⟨U1, eu⟩ := b
@@ -1006,7 +1030,7 @@ theorem seek_sim {cfg : Cfg}
         exact seekFin_sim (w1.setErr .none .none) file blk
       · rw [if_neg hen, if_neg hen]
         exact ⟨rfl, ⟨w1.setErr _ _, rfl, fun h0 => absurd h0 hen⟩⟩
-    · rw [e1, e2]; exact ExRel.same _
+    · rw [e1, e2]; exact ExRel2.same _
   · rw [if_neg hcnd, if_neg hcnd]
     exact seekFin_sim s.w file blk
 
@@ -1081,13 +1105,13 @@ def StepRel (f : File) : Reader LCache × Out → Reader LCache × Out → Prop 
 theorem step_sim {cfg : Cfg}
     (hcfg : cfg.noStale) (hlg : cfg.lentGuard = true) {f : File} (hf : FileOK f) {C U : Reader LCache} (s : S f C U)
     (op : Op LCache) (ok : OpOK fifoOps LCache.WF op) :
-    ExRel (StepRel f) (step cfg fifoOps f C op) (step cfg fifoOps f U op.uncached) := by
+    ExRel2 (StepRel f) (step cfg fifoOps f C op) (step cfg fifoOps f U op.uncached) := by
   cases op with
   | seek file blk =>
     simp only [step, Op.uncached]
     have h := seek_sim hcfg hlg s file blk
     rcases h.cases with e1 | ⟨a, b, e1, e2, r1⟩ | ⟨e, e1, e2⟩
-    · rw [e1]; exact ExRel.badHint _
+    · exact e1.elim
     · rw [e1, e2]
       obtain ⟨C1, ec⟩ := a
       obtain ⟨U1, eu⟩ := b
@@ -1095,12 +1119,12 @@ theorem step_sim {cfg : Cfg}
       simp only at hee s1 ⊢
       subst hee
       exact ⟨by simp only [s1.w.cb, s1.w.ce], s1⟩
-    · rw [e1, e2]; exact ExRel.same _
+    · rw [e1, e2]; exact ExRel2.same _
   | read n =>
     simp only [step, Op.uncached]
     have h := read_sim hcfg hlg hf s n
     rcases h.cases with e1 | ⟨a, b, e1, e2, r1⟩ | ⟨e, e1, e2⟩
-    · rw [e1]; exact ExRel.badHint _
+    · exact e1.elim
     · rw [e1, e2]
       obtain ⟨C1, bs, ec⟩ := a
       obtain ⟨U1, bs', eu⟩ := b
@@ -1108,12 +1132,12 @@ theorem step_sim {cfg : Cfg}
       simp only at hbs hee s1 ⊢
       subst hbs hee
       exact ⟨by simp only [s1.w.cb, s1.w.ce], s1⟩
-    · rw [e1, e2]; exact ExRel.same _
+    · rw [e1, e2]; exact ExRel2.same _
   | readByte =>
     simp only [step, Op.uncached]
     have h := readByte_sim hcfg hlg hf s
     rcases h.cases with e1 | ⟨a, b, e1, e2, r1⟩ | ⟨e, e1, e2⟩
-    · rw [e1]; exact ExRel.badHint _
+    · exact e1.elim
     · rw [e1, e2]
       obtain ⟨C1, bs, ec⟩ := a
       obtain ⟨U1, bs', eu⟩ := b
@@ -1121,7 +1145,7 @@ theorem step_sim {cfg : Cfg}
       simp only at hbs hee s1 ⊢
       subst hbs hee
       exact ⟨by simp only [s1.w.cb, s1.w.ce], s1⟩
-    · rw [e1, e2]; exact ExRel.same _
+    · rw [e1, e2]; exact ExRel2.same _
   | setCache c hints =>
     simp only [step, Op.uncached]
     refine ⟨by simp only [s.w.cb, s.w.ce], ⟨⟨?_, ?_, ⟨rfl, s.w.ucache.2⟩, s.w.cb, s.w.ce, s.w.blocked, s.w.cur⟩,
@@ -1175,14 +1199,14 @@ def RunRel (f : File) :
 theorem run_sim {cfg : Cfg}
     (hcfg : cfg.noStale) (hlg : cfg.lentGuard = true) {f : File} (hf : FileOK f) (ops : List (Op LCache))
     (ok : ∀ op ∈ ops, OpOK fifoOps LCache.WF op) {C U : Reader LCache} (s : S f C U) :
-    ExRel (RunRel f) (run cfg fifoOps f C ops) (run cfg fifoOps f U (ops.map Op.uncached)) := by
+    ExRel2 (RunRel f) (run cfg fifoOps f C ops) (run cfg fifoOps f U (ops.map Op.uncached)) := by
   induction ops generalizing C U with
   | nil => exact ⟨rfl, s⟩
   | cons op rest ih =>
     simp only [List.map_cons, run]
     have h := step_sim hcfg hlg hf s op (ok op (by simp))
     rcases h.cases with e1 | ⟨a, b, e1, e2, r1⟩ | ⟨e, e1, e2⟩
-    · rw [e1]; exact ExRel.badHint _
+    · exact e1.elim
     · rw [e1, e2]
       obtain ⟨C1, o1⟩ := a
       obtain ⟨U1, o2⟩ := b
@@ -1191,7 +1215,7 @@ theorem run_sim {cfg : Cfg}
       subst hoo
       have h2 := ih (fun op' h' => ok op' (by simp [h'])) s1
       rcases h2.cases with e3 | ⟨a2, b2, e3, e4, r2⟩ | ⟨e, e3, e4⟩
-      · rw [e3]; exact ExRel.badHint _
+      · exact e3.elim
       · rw [e3, e4]
         obtain ⟨C2, os1⟩ := a2
         obtain ⟨U2, os2⟩ := b2
@@ -1199,8 +1223,8 @@ theorem run_sim {cfg : Cfg}
         simp only at hos s2 ⊢
         subst hos
         exact ⟨rfl, s2⟩
-      · rw [e3, e4]; exact ExRel.same _
-    · rw [e1, e2]; exact ExRel.same _
+      · rw [e3, e4]; exact ExRel2.same _
+    · rw [e1, e2]; exact ExRel2.same _
 
 /-- the reader right after a successful `NewReader` is related to itself -/
 theorem newReader_S {cfg : Cfg} (hcfg : cfg.noStale)
